@@ -424,6 +424,8 @@ def compare(eng, op, a, b):
             eqs = [compare(eng, ast.Eq(), x, y) for x, y in zip(a, b)]
             r = T.land(*eqs)
             return r if name == "eq" else T.lnot(r)
+    if name in ("eq", "ne") and ((isinstance(a, tuple) and b is None) or (isinstance(b, tuple) and a is None)):
+        return name == "ne"          # a tuple never equals None (plain Python comparison, no broadcasting)
     if isinstance(a, (I.TypeRef, I.ClassRef, I.Obj, dict)) or isinstance(b, (I.TypeRef, I.ClassRef, I.Obj, dict)):
         if name == "eq":
             return a is b or (isinstance(a, I.TypeRef) and isinstance(b, I.TypeRef) and a.name == b.name)
